@@ -16,7 +16,7 @@ C16CodecFails(c) ==
              ~InFormat(ck) \/ LET d == DecodeBytes(c.bytes)
                               IN d.ok /\ WF1(d.c) /\ WF5(d.c) /\ SameUpToRenaming(ck, d.c)>>,
          <<"database-save-open-get_by_label", ~Has(c, "db_back") \/
-             (c.db_exc = "" /\ SameUpToRenaming(ck, c.db_back))>>
+             (c.db_exc = "" /\ WFFails(c.db_back) = {} /\ SameUpToRenaming(ck, c.db_back))>>
        >>)
 
 (* kind "bitio": c.items = Seq of [bits (LSB first), w]; c.back = Seq of bit lists read back *)
